@@ -225,7 +225,7 @@ fn embedded(v: u64) -> Option<Violation> {
 }
 
 pub fn run(ctx: &Ctx) {
-    ctx.set_rule("every value is submitted through every integer type that can carry it (u8,u16,u32,u64,usize) and compared with the specification rule (00 / 01 / 0A b / 0B w / 0C d / 0E q, little endian) and decoded back by an independent decoder. Exhaustive: all u8, all u16 (quick and thorough), all u32 (thorough); sampled: width boundaries +-3, single bits, byte fills, random u32/u64; embedded operands (Name, Package, OpRegion). Non-trivial = value not in {0,1} whose little-endian bytes are not a palindrome, or within +-2 of a width boundary; distinct = distinct values.");
+    ctx.set_rule("every value is submitted through every integer type that can carry it (u8,u16,u32,u64,usize) and compared with the specification rule (00 / 01 / 0A b / 0B w / 0C d / 0E q, little endian) and decoded back by an independent decoder. Exhaustive: all u8, all u16 (quick and thorough), all u32 (thorough); sampled: width boundaries +-3, single bits, byte fills, random u32/u64; embedded operands (Name, Package, OpRegion). Non-trivial = value not in {0,1} whose little-endian bytes are not a palindrome, or within +-2 of a width boundary; distinct = distinct values. Integers are also written into the package builder (add_element) and into the generic table, the crate's own two sinks.");
     let mut evals = 0u64;
     let mut nontriv: u64 = 0;
     let mut vs: Vec<(u64, Violation)> = Vec::new();
